@@ -1,1 +1,59 @@
-(* placeholder until LdapProofs is in place *)
+(* C01 — a decoded request carries exactly what the client sent.
+   ONLY statements.  [wire r] is the RFC 4511 encoding of the typed request
+   [r]; [server_receive prim_ok strict true] is conn.readPacket followed by
+   conn.readRequest of the current tree; [msg_of_request r] is what the
+   property says the handler must see (filter in its RFC 4515 string form,
+   modify values in the BER-wrapped form ConvertString unwraps).  The oracle
+   [prim_ok] and the assertion mode [strict] are universally quantified.
+   [wf_request]: ids and integer fields in int64 (the property asks for
+   0..2^31-1), encodable controls, filters whose substring filters have at least
+   one part and whose extensible matches do not set dnAttributes (known
+   finding K2), total encoding below 2^31 bytes. *)
+From G Require Import Base Ber Ldap LdapProofs LdapRoundTrip Helpers HelpersProofs.
+Open Scope N_scope.
+
+Theorem C01_roundtrip : forall prim_ok strict r, wf_request r = true ->
+  server_receive prim_ok strict true (wire r) = Ok (msg_of_request r).
+Proof. exact server_receive_wire. Qed.
+Print Assumptions C01_roundtrip.
+
+(* the filter a handler sees is the RFC 4515 string of the filter the client encoded *)
+Theorem C01_filter : forall f, wf_filter f = true ->
+  decompile_filter (enc_filter f) = Ok (print_filter f).
+Proof. exact decompile_filter_enc. Qed.
+Print Assumptions C01_filter.
+
+(* modify values: one element per client value, each unwrapped by ConvertString *)
+Theorem C01_modify_values : forall vs, Forall (fun s => N.of_nat (length s) < 2 ^ 63) vs ->
+  length (map wrap_value vs) = length vs /\ convert_string (map wrap_value vs) = Ok vs.
+Proof.
+  intros vs H. split; [apply map_length|]. exact (convert_string_many vs H).
+Qed.
+Print Assumptions C01_modify_values.
+
+(* whatever packet arrives, a delivered message has the kind of its protocolOp
+   tag, the tag is one of the seven supported ones, and a Bind carried version 3 *)
+Theorem C01_kind_matches : forall prim_ok strict modfix p m,
+  new_message prim_ok strict modfix p = Ok m ->
+  exists rp, nth_error (p_kids p) 1 = Some rp /\ p_cls rp = 64 /\
+             op_of_tag (p_tag rp) = Some (msg_op m) /\
+             (msg_op m = OpBind -> exists vp, nth_error (p_kids rp) 0 = Some vp /\ value_of vp = VInt 3).
+Proof. exact delivered_kind. Qed.
+Print Assumptions C01_kind_matches.
+
+Theorem C01_unsupported_op : forall prim_ok strict modfix p rp, nth_error (p_kids p) 1 = Some rp ->
+  op_of_tag (p_tag rp) = None -> forall m, new_message prim_ok strict modfix p <> Ok m.
+Proof. exact unsupported_never_delivered. Qed.
+Print Assumptions C01_unsupported_op.
+
+Theorem C01_bind_version : forall prim_ok strict modfix p rp vp v, nth_error (p_kids p) 1 = Some rp ->
+  p_tag rp = 0 -> nth_error (p_kids rp) 0 = Some vp -> value_of vp = VInt v -> v <> 3%Z ->
+  forall m, new_message prim_ok strict modfix p <> Ok m.
+Proof. exact bind_other_version_never_delivered. Qed.
+Print Assumptions C01_bind_version.
+
+(* K2: with dnAttributes the (modelled) go-ldap decompiler rejects the filter *)
+Theorem C01_filter_dn_refuted :
+  decompile_filter (enc_filter (FExt (Some [50]) (Some [99; 110]) [97] true)) = Err.
+Proof. exact decompile_dn_refuted. Qed.
+Print Assumptions C01_filter_dn_refuted.
